@@ -55,6 +55,7 @@ def evaluate(spec):
     labels = ["fmt:" + cont["fmt"] + ("-ns" if cont.get("nano") else ""), "endian:" + ("be" if cont.get("endian", "<") == ">" else "le"),
               "tsresol:" + ("2^-%d" % (r & 0x7F) if r & 0x80 else "10^-%d" % r), "tsoffset" if cont.get("tsoffset") else "no-offset",
               "extra-blocks:%d" % len(cont.get("extra") or []), "exact-us" if exact_us else "sub-us",
+              "big-block" if any(x[2] > 60000 for x in (cont.get("extra") or [])) else "small-blocks", "snaplen:%d" % cont.get("snaplen", 0),
               "opt-order:" + ("offset,resol" if cont.get("offset_first") else "resol,offset")]
     nontrivial = dims >= 2 and bool(o0.pkts)
     if f1:
@@ -89,9 +90,12 @@ def container(draw):
         return c
     c["tsresol"] = draw(st.one_of(st.integers(0, 9), st.integers(1, 30).map(lambda k: 0x80 | k), st.just(6)))
     c["tsoffset"] = draw(st.sampled_from([0, 0, 1, 3600, 1_600_000_000, -5]))
+    c["snaplen"] = draw(st.sampled_from([0, 0, 2000, 65535, 262144]))      # capture limit announced by the interface (>= every packet here)
     c["offset_first"] = draw(st.booleans())          # order of the if_tsresol / if_tsoffset options inside the IDB
     n = draw(st.integers(0, 4))
-    c["extra"] = [[draw(st.integers(0, 50)), draw(st.sampled_from([4, 5, 0x00000BAD, 0x40000BAD, 0x7777, 0x0000000B])), 4 * draw(st.integers(0, 12))]
+    # unrelated blocks of any size: a name-resolution or custom block may be far larger than any packet
+    c["extra"] = [[draw(st.integers(0, 50)), draw(st.sampled_from([4, 5, 0x00000BAD, 0x40000BAD, 0x7777, 0x0000000B])),
+                   4 * draw(st.one_of(st.integers(0, 12), st.integers(0, 12), st.sampled_from([400, 16500, 17000, 45000, 90000])))]
                   for _ in range(n)]
     return c
 
